@@ -48,6 +48,23 @@ func (m *MutexMap) Lock(key interface{}) Unlocker {
 	return e
 }
 
+// TryLock acquires the lock corresponding to this key if it is free. It returns false
+// without blocking when the lock is held; on success Unlock() must be called.
+func (m *MutexMap) TryLock(key interface{}) (Unlocker, bool) {
+	m.ml.Lock()
+	defer m.ml.Unlock()
+	e, ok := m.ma[key]
+	if !ok {
+		e = &mutexMapEntry{m: m, key: key}
+		m.ma[key] = e
+	}
+	if !e.el.TryLock() {
+		return nil, false
+	}
+	e.cnt++ // ref count
+	return e, true
+}
+
 // Unlock releases the lock for this entry.
 func (entry *mutexMapEntry) Unlock() {
 	m := entry.m
